@@ -392,6 +392,12 @@ func c18Classification(r *core.Report) {
 					body = pf.Body
 				}
 			}
+			// a local bound to a closure: isNotFound := func(err error) bool { ... }
+			if v, ok := core.ObjOf(in.Pkg.TypesInfo, x).(*types.Var); ok && !v.IsField() {
+				if vals := p.FuncValuesOf(v, in); len(vals) == 1 && vals[0].Body != nil {
+					body = vals[0].Body
+				}
+			}
 		}
 		if body == nil {
 			return false
